@@ -23,10 +23,12 @@ Record cfg := mkcfg {
   fix29 : bool;    (* EdDSA R and S left-padded to 32 octets (was: valid signature rejected) *)
   fixkdf : bool;   (* F37: ECDH KDF field kept and re-serialised as read (was: rewritten as 03 01 hash algo) *)
   fix38 : bool;    (* F38: an identity shows its verified self-signature only (was: also every unverified signature that followed the user ID) *)
-  fix39 : bool     (* F39: a subkey's Created is the creation time of the subkey (was: of its binding signature) *)
+  fix39 : bool;    (* F39: a subkey's Created is the creation time of the subkey (was: of its binding signature) *)
+  fix41 : bool;    (* F41: usage and expiry of a revoked subkey are those of its binding signature (was: of the revocation signature: none, never) *)
+  fix42 : bool     (* F42: of several self-signatures of an identity the most recent one counts (was: the last one in the stream) *)
 }.
-Definition fixed : cfg := mkcfg true true true true true true true.
-Definition legacy : cfg := mkcfg false false false false false false false.
+Definition fixed : cfg := mkcfg true true true true true true true true true.
+Definition legacy : cfg := mkcfg false false false false false false false false false.
 
 (* ---------- reading ---------- *)
 Definition be16 (n : N) : bytes := N_to_be 2 n.
